@@ -776,11 +776,17 @@ def pass_down_units(a, b, ops, t, reflected=False):
         - reflected: if True the operation is ``b <ops> a`` (``b`` a plain number)
     """
     if is_un(b) == 0:
-        try:
+        # a bare number takes the unit of the operand in sums and differences
+        # and is dimensionless in products, quotients and powers
+        if ops in (operator.add, operator.sub):
             b_q = b * a._physical_quantity.units
-            new_q = ops(b_q, a._physical_quantity) if reflected else ops(a._physical_quantity, b_q)
-        except Exception:
-            new_q = ops(b, a._physical_quantity) if reflected else ops(a._physical_quantity, b)
+        else:
+            b_q = b
+        new_q = (
+            ops(b_q, a._physical_quantity)
+            if reflected
+            else ops(a._physical_quantity, b_q)
+        )
     elif is_un(b) == 1:
         new_q = ops(a._physical_quantity, b._physical_quantity)
 
